@@ -37,8 +37,8 @@ type SProgram struct {
 	RF     int   `json:"rf"`
 	Nodes  int   `json:"nodes"`
 	Blocks int   `json:"blocks"`
-	Init   int   `json:"init"`  // number of nodes brought up RW before the ops run
-	Pings  bool  `json:"pings"` // monitor pings every 150 ms (otherwise effectively off)
+	Init   int   `json:"init"`             // number of nodes brought up RW before the ops run
+	Pings  bool  `json:"pings"`            // monitor pings every 150 ms (otherwise effectively off)
 	RegAll bool  `json:"regall,omitempty"` // all initial replicas register before the volume starts
 	Ops    []SOp `json:"ops"`
 }
@@ -55,18 +55,18 @@ type ackedWrite struct {
 // SExec runs stack programs against the real controller and nodes and a
 // membership + data model.
 type SExec struct {
-	St                     *Stack
-	P                      SProgram
-	Mode                   []types.Mode // model: "" absent
-	Live                   *Image
-	Acked                  []ackedWrite
-	Frozen                 map[int]int // node -> log length at the time it was detached
+	St     *Stack
+	P      SProgram
+	Mode   []types.Mode // model: "" absent
+	Live   *Image
+	Acked  []ackedWrite
+	Frozen map[int]int // node -> log length at the time it was detached
 	// registrations: evt counts registrations and end-of-step membership scans;
 	// regSeq[n] = evt of node n's latest registration, listedSeq[n] = evt of the
 	// latest scan that found n in the controller's replica list
-	evt       int
-	regSeq    map[int]int
-	listedSeq map[int]int
+	evt                    int
+	regSeq                 map[int]int
+	listedSeq              map[int]int
 	AttAck                 map[int]int // node -> len(Acked) when it was (re)attached
 	AttLog                 map[int]int // node -> len(node log) when it was (re)attached
 	Trace                  []string
@@ -423,10 +423,23 @@ func (x *SExec) apply(i int, op SOp) *Fail {
 			}
 		}
 		var wf *Fail
-		st.PromoWindow = nil
+		// what every replica has on disk as its checkpoint at the moment the
+		// verification returns (the rebuilt one is still flagged rebuilding then)
+		persistedCP := map[int]string{}
+		notePersisted := func() {
+			for j, nd := range st.Nodes {
+				if vm, err := readVolMeta(nd.Dir); err == nil {
+					persistedCP[j] = vm.Checkpoint
+				} else {
+					persistedCP[j] = "unreadable volume.meta: " + err.Error()
+				}
+			}
+		}
+		st.PromoWindow = notePersisted
 		if op.N > 0 && cpFail == 0 {
 			// foreground writes between the verification and the end of the rebuild
 			st.PromoWindow = func() {
+				notePersisted()
 				x.Mode[n] = types.RW
 				for q := 0; q < int(op.N) && wf == nil; q++ {
 					wf = x.fgWrite(i, op.Seed, q+1, op.Reps == 1)
@@ -495,6 +508,9 @@ func (x *SExec) apply(i int, op SOp) *Fail {
 					ch, _ := nd.S.Replica().Chain()
 					if len(ch) < 2 || cp != ch[1] {
 						return sfail("checkpoint|not-latest-snapshot", fmt.Sprintf("after the promotion all %d replicas are RW; controller checkpoint %q, n%d chain %v", x.P.RF, cp, j, ch), "C13")
+					}
+					if got, ok := persistedCP[j]; ok && got != cp {
+						return sfail("checkpoint|recorded-but-not-persisted", fmt.Sprintf("the controller recorded checkpoint %q when it verified the rebuild of n%d; at that moment n%d had %q in its volume.meta (a replica process that dies now comes back with that)", cp, n, j, got), "C13")
 					}
 				}
 				x.Labels["checkpoint:recomputed"]++
